@@ -1,4 +1,4 @@
-// Translators from /repo's Go source to Coq (standard library only: go/ast, go/parser).
+// Translators from /repo's Go source to Coq (go/ast only, no dependencies, no module downloads).
 module verif/translator
 
-go 1.21
+go 1.22
